@@ -455,6 +455,7 @@ pub fn prepare_world(s: &Scenario, root: &Path) -> Result<PreparedWorld, String>
             build_sboms: Vec::new(),
             launch_sboms: Vec::new(),
             launch_sboms_first: false,
+            store_tamper: 0,
         },
     };
     let arg0 = if s.build_phase { "build" } else { "detect" };
